@@ -12,10 +12,16 @@ pub(crate) fn parse_program(
   source_code: String,
 ) -> Result<ParsedSource, ParseDiagnostic> {
   let syntax = get_syntax(media_type);
+  // deno_ast wants the text without a byte-order mark (it asserts so in debug
+  // builds); a file may start with more than one.
+  let mut text = deno_ast::strip_bom(source_code);
+  while text.starts_with('\u{feff}') {
+    text = deno_ast::strip_bom(text);
+  }
   deno_ast::parse_program(deno_ast::ParseParams {
     specifier,
     media_type,
-    text: deno_ast::strip_bom(source_code).into(),
+    text: text.into(),
     capture_tokens: true,
     maybe_syntax: Some(syntax),
     scope_analysis: true,
